@@ -4,8 +4,10 @@
 registered check once, and reverting)."""
 import sys, json, os, shutil, subprocess, re
 pid, k, result = sys.argv[1], sys.argv[2], sys.argv[3]
-src = f'/tmp/seedout/{pid}/{k}'
-dst = f'/verif/seeded/{pid}-{k}'
+srcroot = sys.argv[4] if len(sys.argv) > 4 else '/tmp/seedout'
+dstk = sys.argv[5] if len(sys.argv) > 5 else k
+src = f'{srcroot}/{pid}/{k}'
+dst = f'/verif/seeded/{pid}-{dstk}'
 os.makedirs(dst, exist_ok=True)
 for f in os.listdir(src):
     if f.endswith('.diff') or f.endswith('_test.go') or f == 'meta.json':
